@@ -687,6 +687,9 @@ impl Eval {
             },
             E::Bin(op, a, b) => {
                 let (x, y) = self.int2(a, b, env)?;
+                // a recursive function that keeps multiplying makes the numbers double in length at each
+                // level: such a program is treated like one that runs too long (discarded by the caller)
+                if x.bits() + y.bits() > 20_000 { return Err(Stop::Fuel); }
                 match op {
                     0 => V::Int(x + y),
                     1 => V::Int(x - y),
